@@ -345,8 +345,11 @@ class StorageEnv:
         try:
             self.install()
             self.storage = self.st.TextFileStorage("/sim", number_of_data=(self.cfg.presize or None))
-            for k in range(len(self.cfg.scripts)):
-                self.sched.spawn(f"P{k}", (lambda kk: (lambda: self.proc_main(kk)))(k))
+            try:
+                for k in range(len(self.cfg.scripts)):
+                    self.sched.spawn(f"P{k}", (lambda kk: (lambda: self.proc_main(kk)))(k))
+            except simsched.SchedulerError as e:
+                return ("stuck:" if isinstance(e, simsched.Stuck) else "scheduler:") + str(e), schedule, list(self.sched.log)
 
             def wrapped(en, sched):
                 name = chooser(en, sched)
@@ -358,6 +361,9 @@ class StorageEnv:
                 status = "done"
             except simsched.Deadlock as d:
                 status = "deadlock:" + ",".join(f"{t}@{op}" for t, op in d.blocked)
+            except simsched.SchedulerError as e:
+                # not an observation about the code's behaviour: the run cannot be controlled (see simsched.Stuck)
+                status = ("stuck:" if isinstance(e, simsched.Stuck) else "scheduler:") + str(e)
             for t in self.sched.threads.values():
                 if t.error is not None:
                     status = f"error:{t.name}:{type(t.error).__name__}:{t.error}"
